@@ -231,6 +231,32 @@ def designs():
                                               ["tt = Signal[Unsigned[2]](name='tt')", "@std.concurrent", "def logic():", "    tt.next = self.j + 1",
                                                "leaf_vec(self.i[1:0], tt, self.o[1:0], self.ou)"]),
         None)
+    # several ports fed by different bits / slices of ONE expression result (each actual needs its own connection)
+    add("inline-expression-bits", lambda h: (["@std.concurrent", "def logic():", "    t = self.i[1:0] ^ self.i[3:2]",
+                                              "    LeafXor(a=t[0], b=t[1], y=self.ob)"] if h else
+                                             ["tt = Signal[BitVector[2]](name='tt')", "@std.concurrent", "def logic():", "    tt.next = self.i[1:0] ^ self.i[3:2]",
+                                              "leaf_xor(tt[0], tt[1], self.ob)"]),
+        None)
+    add("inline-expression-bit-twice", lambda h: (["@std.concurrent", "def logic():", "    t = self.i[1:0] ^ self.i[3:2]",
+                                                   "    LeafXor(a=t[1], b=t[1], y=self.ob)", "    self.o[0] <<= t[0]"] if h else
+                                                  ["tt = Signal[BitVector[2]](name='tt')", "@std.concurrent", "def logic():", "    tt.next = self.i[1:0] ^ self.i[3:2]",
+                                                   "    self.o[0] <<= tt[0]", "leaf_xor(tt[1], tt[1], self.ob)"]),
+        None)
+    add("inline-expression-slices", lambda h: (["@std.concurrent", "def logic():", "    t = self.i ^ (self.j.bitvector @ self.j.bitvector)",
+                                                "    LeafVec(x=t[1:0], u=t[3:2].unsigned, yv=self.o[1:0], ys=self.ou)"] if h else
+                                               ["tt = Signal[BitVector[4]](name='tt')", "@std.concurrent", "def logic():",
+                                                "    tt.next = self.i ^ (self.j.bitvector @ self.j.bitvector)",
+                                                "leaf_vec(tt[1:0], tt[3:2].unsigned, self.o[1:0], self.ou)"]),
+        None)
+    add("inline-two-instances-one-expression", lambda h: (["t0 = Signal[Bit](False, name='t0')", "t1 = Signal[Bit](False, name='t1')", "@std.concurrent", "def logic():",
+                                                           "    t = self.i[1:0] ^ self.i[3:2]",
+                                                           "    LeafXor(a=t[0], b=self.i[0], y=t0)", "    LeafXor(a=t[1], b=self.i[0], y=t1)",
+                                                           "    self.o <<= t1 @ t0 @ t1 @ t0"] if h else
+                                                          ["t0 = Signal[Bit](False, name='t0')", "t1 = Signal[Bit](False, name='t1')",
+                                                           "tt = Signal[BitVector[2]](name='tt')", "@std.concurrent", "def logic():",
+                                                           "    tt.next = self.i[1:0] ^ self.i[3:2]", "    self.o <<= t1 @ t0 @ t1 @ t0",
+                                                           "leaf_xor(tt[0], self.i[0], t0)", "leaf_xor(tt[1], self.i[0], t1)"]),
+        None)
     # helpers
     add("open-entity", lambda h: (["e = std.OpenEntity[LeafXor](a=self.i[0], b=self.i[1])",
                                    "@std.concurrent", "def pub():", "    self.ob <<= e.y"] if h else
@@ -436,6 +462,11 @@ def analyse(idx):
         out["problems"].append(("syntax", str(e)))
         return out
     except Unsupported as e:
+        if "not in design file" in str(e) and not any(r == "missing-entity" for r, _ in out["problems"]):
+            # no design of this check uses extern entities: an instantiated entity that is not emitted is a violation
+            out["problems"].append(("missing-entity", str(e)))
+        if out["problems"]:
+            return out  # the structure check already found a violation; the text cannot be elaborated
         out["status"] = "tool"
         out["what"] = str(e)
         return out
